@@ -121,6 +121,7 @@ class Harness:
 
 PERMS = [(0, 1, 2, 3), (3, 2, 1, 0), (1, 2, 3, 0), (2, 3, 0, 1), (3, 0, 1, 2), (1, 0, 3, 2)]
 UPDATE_FIELDS = ('uuid', 'property', 'value', 'timestamp')
+FORMS = ['auto-Z', 'millis-Z', 'offset']
 
 
 class InboundHarness:
@@ -156,13 +157,18 @@ class InboundHarness:
                 prop = ['p', 'q'][c.choose(2, 'prop')]
                 val = None if kind == 'Update-null' else 'x%d' % i
                 ts = w.fresh_ts()
+                # the timestamp text: this implementation's own form, fixed milliseconds (".000Z", JavaScript) or a numeric
+                # offset ("+00:00", Python) — all RFC 3339 UTC renderings of the same whole-second instant
+                form = FORMS[c.choose(len(FORMS), 'timestamp-form')]
+                if form != 'auto-Z':
+                    c.cover('inbound: timestamp written in another RFC 3339 form')
                 fields = {'uuid': ('uuid', u), 'property': ('str', prop), 'value': ('str', val) if val is not None else ('null',),
-                          'timestamp': ('rfc3339', dt(ts))}
+                          'timestamp': ('rfc3339', dt(ts), form)}
                 perm = PERMS[c.choose(len(PERMS), 'field-order')]
                 order = [UPDATE_FIELDS[k] for k in perm]
                 docs.append(('obj', [('Update', ('obj', [(k, fields[k]) for k in order]))]))
                 meaning.append(I.mk_enum('SyncOp', 'Update', [u, prop, Some(val) if val is not None else NONE(), dt(ts)]))
-                descs.append({'kind': 'Update', 'uuid': u, 'prop': prop, 'value': val, 'ts': ts, 'order': order})
+                descs.append({'kind': 'Update', 'uuid': u, 'prop': prop, 'value': val, 'ts': ts, 'order': order, 'form': form})
                 if perm != PERMS[0]:
                     c.cover('inbound: fields of an Update in another order')
                 if val is None:
@@ -174,6 +180,7 @@ class InboundHarness:
         def wit(m):
             return {'replicas': 1, 'kind': 'sync', 'preload': [foreign_text(descs, m)], 'steps': [{'sync': 0}],
                     'inbound': [{k: (show(x, m) if k == 'ts' else x) for k, x in d.items()} for d in descs]}
+        c.panic_witness = wit          # a panic inside the sync (e.g. an unwrap on the parse result) is reported with the foreign text
         res = w.sync(w.dbs[0], w.server, client=0)
         if res.variant != 0:
             c.prove(False, 'a version in the documented format written by another implementation was rejected', wit, {'class': 'inbound-rejected', 'err': repr(res)[:200]})
@@ -211,7 +218,8 @@ def foreign_text(descs, m):
         if d['kind'] != 'Update':
             ops.append('{"%s":{"uuid":"%s"}}' % (d['kind'], uu(d['uuid'])))
             continue
-        t = datetime.datetime.fromtimestamp(ev(d['ts']), datetime.timezone.utc).strftime('%Y-%m-%dT%H:%M:%SZ')
+        t = datetime.datetime.fromtimestamp(ev(d['ts']), datetime.timezone.utc).strftime('%Y-%m-%dT%H:%M:%S')
+        t += {'auto-Z': 'Z', 'millis-Z': '.000Z', 'offset': '+00:00'}[d.get('form', 'auto-Z')]
         f = {'uuid': json.dumps(uu(d['uuid'])), 'property': json.dumps(d['prop']), 'value': json.dumps(d['value']), 'timestamp': json.dumps(t)}
         ops.append('{"Update":{%s}}' % ','.join('"%s":%s' % (k, f[k]) for k in d['order']))
     return '{"operations":[%s]}' % ','.join(ops)
@@ -352,7 +360,8 @@ def validate_samples(sample, out):
 
 def required_covers(tier):
     return ['undo point committed', 'delete of a populated task', 'update carrying an old value',
-            'inbound: foreign version applied', 'inbound: fields of an Update in another order', 'inbound: null value']
+            'inbound: foreign version applied', 'inbound: fields of an Update in another order', 'inbound: null value',
+            'inbound: timestamp written in another RFC 3339 form']
 
 
 def configs(tier):
@@ -360,7 +369,7 @@ def configs(tier):
         return [dict(name='wire', factory=lambda: Harness(2, ('p', 'q'), 'q'),
                      bounds='one replica, 2 committed operations (each optionally preceded by an undo point) after a populated synced task; 2 task ids, 2 properties'),
                 dict(name='inbound', factory=lambda: InboundHarness(2, 'iq'),
-                     bounds='a foreign version of a Create followed by 2 operations (Create / Delete / Update with a string / Update with null; 2 task ids, 2 properties; 6 field orders per Update; symbolic timestamps) pulled by an empty replica')]
+                     bounds='a foreign version of a Create followed by 2 operations (Create / Delete / Update with a string / Update with null; 2 task ids, 2 properties; 6 field orders and 3 RFC 3339 text forms (Z, .000Z, +00:00) per Update; symbolic whole-second timestamps) pulled by an empty replica')]
     return [dict(name='wire-3', factory=lambda: Harness(3, ('p', 'q'), 't'),
                  bounds='3 committed operations with optional undo points', time_limit_s=3000),
             dict(name='inbound-3', factory=lambda: InboundHarness(3, 'it'), bounds='a foreign version of a Create followed by 3 operations, as quick', time_limit_s=3000)]
